@@ -97,6 +97,9 @@ func genC16(t *rapid.T) C16Case {
 	default:
 		tree = g.boolNode(2, width)
 	}
+	if maxOperands(flattenModel(tree)) > 127 { // would be rejected under ReduceNesting (C09's business); practically never
+		tree = g.boolNode(1, 12)
+	}
 	c := C16Case{Tree: tree, Bools: map[string]bool{}, Ints: map[string]int64{}}
 	allSame := rapid.IntRange(0, 2).Draw(t, "allsame")
 	for _, n := range tree.VarNames() {
